@@ -369,14 +369,13 @@ func run(c Case) error {
 			allowed = []error{osm.ErrScannerClosed}
 		case cancelled:
 			allowed = []error{context.Canceled}
-			if stop == stopCancelAsync && !c.Endless && delivered >= total {
-				allowed = append(allowed, nil) // the scan may have completed before the cancellation landed
-				if truncated {
-					allowed = nil
-				}
-			}
 		default:
 			return nil
+		}
+		if stop == stopCancelAsync && !c.Endless && delivered >= total && !truncated {
+			// every object was delivered: the scan may have observed the end of the
+			// input (a complete scan) before the asynchronous cancellation landed
+			allowed = append(allowed, nil)
 		}
 		if truncated && stop == stopCancelAsync && delivered >= total {
 			// either the truncation error or the cancellation was observed first
